@@ -497,6 +497,14 @@ func runScenario(sc *scenario) (lines []string, direct []string, quiescent bool)
 				}
 				time.Sleep(5 * time.Millisecond)
 			}
+		case "bnone":
+			// nothing may leave the client for s.n ms (used while a callback is held at a gate)
+			if p := d.conn.brokerRecv(time.Duration(s.n) * time.Millisecond); p != nil {
+				d.rec.directf("direct ackheld FAIL %s written while the application callback had not returned", hx.PktText(p))
+			}
+		case "bdrain":
+			for d.conn.brokerRecv(time.Millisecond) != nil {
+			}
 		case "bpong":
 			conn := d.conn
 			n := s.n
@@ -529,7 +537,133 @@ func runScenario(sc *scenario) (lines []string, direct []string, quiescent bool)
 	}
 	d.endIncarnation(true)
 	rec.mark("end")
+	directClauses(rec)
 	rec.mu.Lock()
 	defer rec.mu.Unlock()
 	return rec.lines, rec.direct, !d.wd
+}
+
+
+// directClauses judges the finished log of a scenario by itself (no model): clauses that need what the
+// harness knows — which configuration each Connect call carried.
+func directClauses(rec *Rec) {
+	rec.mu.Lock()
+	lines := append([]string(nil), rec.lines...)
+	rec.mu.Unlock()
+	type inc struct {
+		cfg        string // clean early validate keepalive callback, from the Connect call
+		connects   map[string]bool
+		allSeen    bool
+		connacked  bool
+		expectCb   string // message text the next processor event must deliver
+		expectFrom string
+	}
+	var cur *inc
+	var incs []*inc
+	completed := map[string]bool{}
+	stored := map[string]string{}
+	fail := func(format string, args ...interface{}) {
+		rec.direct = append(rec.direct, fmt.Sprintf(format, args...))
+	}
+	for _, l := range lines {
+		f := strings.Fields(l)
+		if len(f) < 5 || f[0] != "ev" {
+			continue
+		}
+		th, ev := f[3], f[4:]
+		switch ev[0] {
+		case "new":
+			cur = &inc{connects: map[string]bool{}}
+			incs = append(incs, cur)
+			continue
+		case "fut":
+			if len(ev) >= 3 && ev[2] == "1" {
+				completed[ev[1]] = true
+			}
+			continue
+		}
+		if cur == nil {
+			continue
+		}
+		if ev[0] == "call" && len(ev) >= 4 && ev[2] == "connect" {
+			if cur.cfg == "" {
+				cur.cfg = ev[3]
+			}
+			cur.connects[ev[1]] = true
+			continue
+		}
+		if ev[0] == "reset" && len(cur.cfg) == 5 && cur.cfg[0] == '0' {
+			fail("direct reset FAIL Session.Reset (%s) on a client whose Connect did not ask for a clean session: the stored packets are gone", strings.Join(ev, " "))
+		}
+		if ev[0] == "all" && ev[1] == "o" {
+			cur.allSeen = true
+		}
+		// the outgoing store as the observed calls leave it: a new request must not be saved over an entry
+		// that is still waiting for its acknowledgement (ids come from Session.NextID, which does not repeat)
+		if ev[0] == "reset" && ev[len(ev)-1] == "ok" {
+			stored = map[string]string{}
+		}
+		if ev[0] == "delete" && ev[1] == "o" && ev[len(ev)-1] == "ok" {
+			delete(stored, ev[2])
+		}
+		if ev[0] == "save" && ev[1] == "o" && ev[len(ev)-1] == "ok" {
+			p := strings.Split(ev[2], ":")
+			id := p[len(p)-1]
+			if p[0] == "pubrel" {
+				id = p[1]
+			}
+			if old, ok := stored[id]; ok && th == "a" {
+				fail("direct overwrite FAIL (%s) replaces the stored, still unacknowledged %s", strings.Join(ev, " "), old)
+			}
+			stored[id] = ev[2]
+		}
+		// delivery: with a callback set, the processor's move right after a PUBLISH (QoS 0/1, QoS 2 in the
+		// announce-on-publish mode) or after the lookup for a PUBREL (default mode) is the callback for it
+		if th != "i" || len(cur.cfg) != 5 || cur.cfg[4] != '1' {
+			continue
+		}
+		switch ev[0] {
+		case "connclose", "reset", "cberr":
+			continue
+		case "tx":
+			if ev[1] == "pingreq" {
+				continue
+			}
+		}
+		if cur.expectCb != "" {
+			if !(ev[0] == "cb" && ev[1] == cur.expectCb) {
+				fail("direct delivery FAIL the message of (%s) was not passed to the callback next; the processor went on with (%s)", cur.expectFrom, strings.Join(ev, " "))
+			}
+			cur.expectCb = ""
+		}
+		early := cur.cfg[1] == '1'
+		switch ev[0] {
+		case "rx":
+			p := strings.Split(ev[1], ":")
+			if p[0] == "connack" && len(p) == 3 && p[2] == "0" {
+				cur.connacked = true
+			}
+			if p[0] == "publish" && cur.connacked && (p[4] == "0" || p[4] == "1" || (p[4] == "2" && early)) {
+				cur.expectCb = p[2] + "," + p[3] + "," + p[4] + "," + p[5]
+				cur.expectFrom = strings.Join(ev, " ")
+			}
+		case "lookup":
+			p := strings.Split(ev[3], ":")
+			if ev[1] == "i" && p[0] == "publish" && !early {
+				cur.expectCb = p[2] + "," + p[3] + "," + p[4] + "," + p[5]
+				cur.expectFrom = strings.Join(ev, " ")
+			}
+		}
+	}
+	for _, in := range incs {
+		done := false
+		for c := range in.connects {
+			if completed[c] {
+				done = true
+			}
+		}
+		if done && !in.allSeen {
+			fail("direct resend FAIL the connect future completed successfully but AllPackets(Outgoing) was never called on this connection: nothing stored can have been retransmitted")
+		}
+	}
 }
